@@ -84,11 +84,14 @@ def check(case):
         raise Violation('twin-builds-differ', f'{desc}\nbuild 1 epochs {A}\nbuild 2 epochs {Bt}')
     np.random.seed(7)
     C = epochs(fresh(node).copy(), 3)
+    deferred = None
     if A != C:
         sig = 'copy-differs'
-        if shared_reshuffle(node):
-            sig = 'copy-differs|shared-reshuffle-object'  # known open finding K3
-        raise Violation(sig, f'{desc}\nbuild epochs   {A}\ncopy() epochs  {C}')
+        v = Violation(sig, f'{desc}\nbuild epochs   {A}\ncopy() epochs  {C}')
+        if not shared_reshuffle(node):
+            raise v
+        # known open finding K3: reported at the end, so that it does not hide the remaining sub-checks of this case
+        deferred = Violation('copy-differs|shared-reshuffle-object', v.detail)
     m = ev(node)
     if case.get('prefetch'):
         w, b = case['prefetch']
@@ -148,6 +151,8 @@ def check(case):
             fo = None
         if fo is False:
             raise Violation('frozen-copy-unordered', f'{desc}\ncopy(freeze=True).ordered == False')
+    if deferred is not None:
+        raise deferred
     return A
 
 
